@@ -312,6 +312,7 @@ let run_mode () = run_driver (fun toks impl ->
                else if c = 1 then "fails:C03-mint-quantity-outside-int64" else "fails:-") in
           (m, verdict)
         | ["builderr"] -> ("builderr", "na")
+        | ["rejected"] -> ("rejected", "na")          (* the validating constructor refused the value: nothing is emitted *)
         | _ -> ("ok ?", "fails:-")))
   | ["neg"; name; _; hexs] ->
     (match lookup name with
